@@ -30,3 +30,8 @@ def run(ctx):
         ctx, PID, "props/C05.v", make_work,
         "and3/or3/not3 are exactly the Kleene tables for all values (type error iff an operand is neither boolean nor NULL); commutativity, associativity, De Morgan, distributivity, dominance; WHERE keeps exactly the rows whose predicate is TRUE; IN lists equal their OR chain; CASE takes the first TRUE branch and never evaluates later ones; closed expressions evaluate independently of the environment (constant folding)",
         "expression-heavy queries (depth <= 4: comparisons, AND/OR/NOT, IS [NOT] NULL, IS [NOT] DISTINCT FROM, + - * / %, unary minus, CASE, IN lists) in SELECT lists, WHERE clauses, CASE branches and JOIN conditions, over columns with NULLs and over constants only, optimizer on (constant folding, CSE, conjunct reordering) and off, batch sizes 1/3/2048; distinct = distinct (SQL text, config)")
+
+
+def replay(ctx, payload):
+    from . import sqlrun
+    return sqlrun.replay(ctx, payload)
